@@ -53,6 +53,7 @@ ShortDecl(c) == [p |-> <<"margin", "padding", "inset">>[c[2]], v |-> SubSeq(<<Le
                  sp |-> SubSeq(<<1, 1, 1, 1>>, 1, c[3]), i |-> FALSE]
 
 FamChoices(dummy) == CASE Family = "casc" -> CascChoices [] Family = "nest" -> NestChoices [] Family = "short" -> ShortChoices
+                       [] Family = "all" -> CascChoices \cup NestChoices \cup ShortChoices
 \* a cheap spreading function over the parts
 RECURSIVE SumFrom(_, _)
 SumFrom(c, k) == IF k > Len(c) THEN 0 ELSE c[k] * k + SumFrom(c, k + 1)
@@ -74,7 +75,7 @@ MCNext == /\ ch = <<>>
           /\ ch' \in {c \in FamChoices(0) : PartOf(c) = part}
           /\ ok' = FamCheck(ch')
           /\ part' = part /\ UNCHANGED <<i, out>>
-          /\ (Export /\ Family = "casc") => PrintT(<<"CASE", ToJson(Bind(CascSheet(ch'), LAMBDA sh : CaseOf(ch', sh) @@ [items |-> sh]))>>)
+          /\ (Export /\ ch'[1] = "casc") => PrintT(<<"CASE", ToJson(Bind(CascSheet(ch'), LAMBDA sh : CaseOf(ch', sh) @@ [items |-> sh]))>>)
 MCSpec == MCInit /\ [][MCNext]_vars
 \* WinnerUnique + LayerOrderTotal (casc), NestEquiv (nest), ShorthandLaw (short) hold for every enumerated member
 FamilyOK == ok
